@@ -35,8 +35,8 @@ func checkC10(tier string) int {
 		"/channel/create", "/channel/delete", "/channel/empty", "/channel/pause", "/channel/unpause", "/config/nsqlookupd_tcp_addresses", "/nosuch", "/topic", "/"}
 	methods := []string{"GET", "POST", "PUT", "DELETE", "HEAD"}
 	long := strings.Repeat("a", 65)
-	topicArgs := []string{"", "topic=", "topic=t", "topic=u", "topic=n", "topic=t%24", "topic=" + long, "topic=%zz", "topic=t&topic=n", "topic=n%23ephemeral"}
-	chanArgs := []string{"", "channel=", "channel=c", "channel=k", "channel=x", "channel=c%24", "channel=" + long, "channel=x%23ephemeral"}
+	topicArgs := []string{"", "topic=", "topic=t", "topic=u", "topic=n", "topic=t%24", "topic=" + long, "topic=%zz", "topic=t&topic=n", "topic=n%23ephemeral", "topic=" + strings.Repeat("e", 55) + "%23ephemeral"}
+	chanArgs := []string{"", "channel=", "channel=c", "channel=k", "channel=x", "channel=c%24", "channel=" + long, "channel=x%23ephemeral", "channel=" + strings.Repeat("e", 55) + "%23ephemeral"}
 	for _, p := range paths {
 		for _, m := range methods {
 			for _, ta := range topicArgs {
